@@ -41,9 +41,10 @@ ASSUMPTIONS = [
 FLOORS = {
     'jv:depth>=2': (0.2, 'jv:case'), 'jv:string-escape': (0.2, 'jv:case'), 'jv:non-integer-number': (0.2, 'jv:case'),
     'jv:lookalike-string': (0.3, 'jv:case'), 'jv:lookalike-key-group': (0.1, 'jv:case'), 'jt:lookalike-string': (0.2, 'jt:case'),
-    'jt:escape-sequence': (0.3, 'jt:case'), 'jt:number-frac-or-exp': (0.2, 'jt:case'),
+    'jt:escape-sequence': (0.3, 'jt:case'), 'jt:invisible-astral': (0.08, 'jt:case'), 'jt:invisible-bmp': (0.1, 'jt:case'),
+    'jv:invisible-astral': (0.08, 'jv:case'), 'jt:number-frac-or-exp': (0.2, 'jt:case'),
     'xml:namespace': (0.2, 'xml:case'), 'xml:non-element-child': (0.3, 'xml:case'), 'xml:special-char': (0.3, 'xml:case'),
-    'xml:inner-target-with-tail': (0.05, 'xml:case'), 'xh:inner-tail-then-ancestor': (0.3, 'xh:case'),
+    'xml:inner-target-with-tail': (0.05, 'xml:case'), 'xh:inner-tail-then-ancestor': (0.3, 'xh:case'), 'xh:per-item-expression-n>=2': (0.4, 'xh:case'),
 }
 
 FN_NS = 'http://www.w3.org/2005/xpath-functions'
@@ -242,7 +243,20 @@ def _ev(expr, variables=None, root=None, item=None):
     kw = {'variables': variables} if variables else {}
     if item is not None:
         kw['item'] = item
-    return XPath31Parser().parse(expr).evaluate(XPathContext(root, **kw))
+    if '$v' in expr:                     # generated constructor expressions: compiled per case
+        tok = XPath31Parser().parse(expr)
+    else:                                # fixed expressions: ONE compiled token evaluated over all documents and contexts
+        tok = _TOKEN_CACHE.get(expr)
+        if tok is None:
+            tok = XPath31Parser().parse(expr)
+            if len(_TOKEN_CACHE) < 64:
+                _TOKEN_CACHE[expr] = tok
+        _TOKEN_USES[expr] = _TOKEN_USES.get(expr, 0) + 1
+    return tok.evaluate(XPathContext(root, **kw))
+
+
+_TOKEN_CACHE: dict = {}
+_TOKEN_USES: dict = {}
 
 
 def _cls_for(cls_fn, code):
@@ -264,9 +278,15 @@ def _call(prefix, cls_fn, fn):
 # --------------------------------------------------------------------------
 # strings
 # --------------------------------------------------------------------------
+# format (Cf), line/paragraph separator (Zl, Zp) and other invisible characters, BMP and astral (tag characters of flag
+# emoji sequences, musical format, shorthand format): they must survive raw and as (surrogate pair) escapes
+_INVISIBLE = ['\u200b', '\u200e', '\u2028', '\u2029', '\ufeff', '\u00ad', '\u2060', '\u061c', '\U000E0001', '\U000E0020', '\U000E0067',
+              '\U000E007F', '\U0001D173', '\U0001BCA0', '\U0001F3F4\U000E0067\U000E0062\U000E007F', '\U000E0037']
+_INVISIBLE_ASTRAL = [c for c in ''.join(_INVISIBLE) if ord(c) > 0xFFFF and ord(c) != 0x1F3F4]
+_INVISIBLE_BMP = [c for c in ''.join(_INVISIBLE) if ord(c) <= 0xFFFF]
 _XML_CHARS = list('ab zA1') + ['"', '\\', '/', '\n', '\r', '\t', '\x7f', '\x80', '\x85', '\x9f', '\xa0', 'é', 'ß', 'İ',
                                '\u0301', '\u2028', '\ufffd', '\ue000', '\U0001F600', '\U0001D4B3', '\U0010FFFF', '&', '<',
-                               '>', "'", '{', '}', '[', ']', ':', ',', 'u', 'n', 'q', '0', '#', ';']
+                               '>', "'", '{', '}', '[', ']', ':', ',', 'u', 'n', 'q', '0', '#', ';'] + _INVISIBLE
 _TOKENS = ['\\u12', '\\n', '\\"', '\\\\', '&#34;', '&amp;', '</', ']]>', '\\/', 'null', '\\u0041', '\\q', '&#xFFFD;']
 _NON_XML = ['\x00', '\x01', '\x08', '\x0c', '\x1f', '\ufffe', '\uffff', '\ud800', '\udc00', '\udfff']
 
@@ -455,6 +475,7 @@ def judge_json_value(case, rec: Recorder | None = None) -> list[Disc]:
         classes = ['jv:case'] + (['jv:depth>=2'] if dep >= 2 else []) + (['jv:string-escape'] if esc else []) + \
                   (['jv:non-integer-number'] if nonint else []) + (['jv:empty-sequence'] if any(x[0] == 'e' for x in leaves) else []) + \
                   (['jv:astral'] if any(x[0] == 's' and any(ord(c) > 0xFFFF for c in x[1]) for x in leaves) else []) + \
+                  (['jv:invisible-astral'] if any(x[0] == 's' and any(c in x[1] for c in _INVISIBLE_ASTRAL) for x in leaves) else []) + \
                   (['jv:lookalike-string'] if any(x[0] == 's' and _has_lookalike(x[1]) for x in leaves) else []) + \
                   (['jv:lookalike-key-group'] if _has_key_group(v) else [])
         rec.case(['jv', v], nontrivial=dep >= 2 or esc or nonint, sample={'check': 'json_value', 'xpath': xv[:120], 'v': v},
@@ -598,6 +619,33 @@ def _text_class(pv, code=None):
     return 'other'
 
 
+def _bad_u_escape(text):
+    """(kind, excerpt) of the first \\u escape that is not 4 hex digits or is half of a surrogate pair; None when all are fine"""
+    i, n = 0, len(text)
+    while i < n:
+        if text[i] == '\\':
+            if i + 1 < n and text[i + 1] == 'u':
+                h = text[i + 2:i + 6]
+                if len(h) < 4 or any(c not in '0123456789abcdefABCDEF' for c in h):
+                    return ('not-4-hex', text[i:i + 8])
+                cp = int(h, 16)
+                if 0xD800 <= cp <= 0xDBFF:
+                    nxt = text[i + 6:i + 12]
+                    if not (nxt[:2] == '\\u' and len(nxt) == 6 and all(c in '0123456789abcdefABCDEF' for c in nxt[2:])
+                            and 0xDC00 <= int(nxt[2:], 16) <= 0xDFFF):
+                        return ('lone-high-surrogate', text[i:i + 12])
+                    i += 12
+                    continue
+                if 0xDC00 <= cp <= 0xDFFF:
+                    return ('lone-low-surrogate', text[i:i + 6])
+                i += 6
+                continue
+            i += 2
+            continue
+        i += 1
+    return None
+
+
 def judge_json_text(case, rec: Recorder | None = None) -> list[Disc]:
     discs: list[Disc] = []
     t = case['t']
@@ -620,6 +668,9 @@ def judge_json_text(case, rec: Recorder | None = None) -> list[Disc]:
         elif not isinstance(out, str):
             discs.append(Disc(f'{pre}/not-a-string', 'xs:string', repr(out)[:100], f't={t[:200]!r}'))
         else:
+            bad = _bad_u_escape(out)
+            if bad:
+                discs.append(Disc(f'{pre}/malformed-u-escape/{bad[0]}', '\\uXXXX (a surrogate pair for astral characters)', bad[1], f't={t[:200]!r} out={out[:200]!r}'))
             try:
                 got = _loads_strict(out)
             except ValueError as e:
@@ -635,6 +686,8 @@ def judge_json_text(case, rec: Recorder | None = None) -> list[Disc]:
         classes = ['jt:case'] + (['jt:escape-sequence'] if escs else []) + (['jt:number-frac-or-exp'] if frac else []) + \
                   (['jt:no-verdict'] if not verdict else []) + (['jt:non-xml-char'] if _text_class(pv) == 'non-xml-char' else []) + \
                   (['jt:nested'] if nested else []) + \
+                  (['jt:invisible-astral'] if any(isinstance(x, str) and any(c in x for c in _INVISIBLE_ASTRAL) for k, x in _walk_py(pv) if k != 'member') else []) + \
+                  (['jt:invisible-bmp'] if any(isinstance(x, str) and any(c in x for c in _INVISIBLE_BMP) for k, x in _walk_py(pv) if k != 'member') else []) + \
                   (['jt:lookalike-string'] if any(isinstance(x, str) and _has_lookalike(x) for k, x in _walk_py(pv) if k != 'member') else [])
         rec.case(['jt', t], nontrivial=verdict and (escs or frac or nested), sample={'check': 'json_text', 't': t}, classes=classes)
     return discs
@@ -755,7 +808,7 @@ def _xelem(draw, depth=0):
 
 xml_case = st.fixed_dictionaries({
     'root': _xelem(), 'backend': st.sampled_from(['et', 'et', 'lxml']), 'top': st.sampled_from(['element', 'document']),
-    'target': st.integers(0, 30), 'pre': st.lists(st.one_of(_comment_text.map(lambda v: {'k': 'c', 'v': v}),
+    'fn': st.sampled_from(['parse-xml', 'parse-xml', 'parse-xml-fragment']), 'target': st.integers(0, 30), 'pre': st.lists(st.one_of(_comment_text.map(lambda v: {'k': 'c', 'v': v}),
                                                             _pi.map(lambda p: {'k': 'p', 'tg': p[0], 'v': p[1]})), max_size=2)})
 
 
@@ -997,7 +1050,7 @@ def _unique_xml_ids(case):
     return case
 
 
-def _roundtrip_discs(prefix, top, item, ref, pre, cls, root=None):
+def _roundtrip_discs(prefix, top, item, ref, pre, cls, root=None, fn='parse-xml'):
     """serialize(.) of one node, the text through the stdlib parser and through parse-xml, both against the model"""
     discs: list[Disc] = []
     text, d = _call(prefix + '/serialize', lambda code: 'doc-misc' if pre and code == 'SENR0001' else cls,
@@ -1019,7 +1072,7 @@ def _roundtrip_discs(prefix, top, item, ref, pre, cls, root=None):
             if type(e).__name__ != 'ParseError':
                 raise
             discs.append(Disc(f'{prefix}/independent-parser/not-well-formed/{cls}', 'well-formed XML', str(e), where))
-        back, d = _call(prefix + '/parse-xml', lambda code: cls, lambda: _ev('parse-xml($t)', {'t': text}, root=top))
+        back, d = _call(prefix + '/' + fn, lambda code: cls, lambda: _ev(fn + '($t)', {'t': text}, root=top))
         if d:
             discs.append(d)
         else:
@@ -1032,8 +1085,23 @@ def _roundtrip_discs(prefix, top, item, ref, pre, cls, root=None):
                 want = _de_view(('d', [ref]))
                 df = _xdiff(want, gm)
                 if df:
-                    discs.append(Disc(f'{prefix}/roundtrip/{df[0]}', df[1], df[2], f'at {df[3]} {where}'))
+                    discs.append(Disc(f'{prefix}/roundtrip/{df[0]}', df[1], df[2], f'{fn}: at {df[3]} {where}'))
     return discs
+
+
+def _has_misc(e):
+    return any(c['k'] != 'e' or _has_misc(c) for c in e['c'])
+
+
+def _usable_fn(case, spec_e, rec, tag):
+    """parse-xml-fragment on the ElementTree data model drops comments and PIs (same root cause as the repaired parse-xml
+    defect, proposed/C17/fix13.diff): such draws fall back to parse-xml and are counted"""
+    fn = case.get('fn', 'parse-xml')
+    if fn == 'parse-xml-fragment' and case['backend'] == 'et' and _has_misc(spec_e):
+        if rec is not None:
+            rec.cls(tag + ':fragment-avoided(et+comment/pi)')
+        return 'parse-xml'
+    return fn
 
 
 def judge_xml(case, rec: Recorder | None = None) -> list[Disc]:
@@ -1054,7 +1122,8 @@ def judge_xml(case, rec: Recorder | None = None) -> list[Disc]:
     cls = 'tail' if inner_tail else 'cr' if 'cr' in feats else 'doc-misc' if pre else 'plain'
     prefix = f'C17/xml/{case["backend"]}'
     item = None if doc_target else elems[idx]
-    discs += _roundtrip_discs(prefix, top, item, ref, pre, cls)
+    fn = _usable_fn(case, spec_e, rec, 'xml')
+    discs += _roundtrip_discs(prefix, top, item, ref, pre, cls, fn=fn)
     if rec is not None:
         classes = ['xml:case', 'xml:' + case['backend'], 'xml:top-' + case['top']] + \
                   (['xml:namespace'] if 'ns' in feats else []) + (['xml:non-element-child'] if feats & {'misc', 'text'} else []) + \
@@ -1120,7 +1189,10 @@ def _xml_history_case(draw):
         if draw(st.booleans()):
             picks.append(n)
     return {'root': root, 'backend': draw(st.sampled_from(['et', 'et', 'lxml'])), 'top': draw(st.sampled_from(['element', 'document'])),
-            'pre': [], 'targets': picks, 'shared_node_tree': draw(st.booleans())}
+            'pre': [], 'targets': picks, 'shared_node_tree': draw(st.booleans()),
+            'fn': draw(st.sampled_from(['parse-xml', 'parse-xml', 'parse-xml-fragment'])),
+            # one expression that calls the parse function once per element of the tree
+            'per_item': draw(st.sampled_from([None, 'for', 'bang', 'for', 'bang']))}
 
 
 xml_history_case = _xml_history_case()
@@ -1176,7 +1248,8 @@ def judge_xml_history(case, rec: Recorder | None = None) -> list[Disc]:
         feats: set = set()
         _tree_features(spec_e, feats)
         cls = 'tail' if inner_tail else 'cr' if 'cr' in feats else 'plain'
-        for d in _roundtrip_discs(prefix, top, None if doc_target else elems[i], _spec_model(spec_e), [], cls, root=shared):
+        for d in _roundtrip_discs(prefix, top, None if doc_target else elems[i], _spec_model(spec_e), [], cls, root=shared,
+                                  fn=_usable_fn(case, spec_e, rec, 'xh')):
             d.detail = f'step {step} target {i}: ' + d.detail
             discs.append(d)
         after = _source_dump(top)
@@ -1192,7 +1265,32 @@ def judge_xml_history(case, rec: Recorder | None = None) -> list[Disc]:
             before = _source_dump(top)
             if rec is not None:
                 rec.cls('xh:resync')
+    if case.get('per_item'):
+        fn = _usable_fn(case, case['root'], rec, 'xh')
+        expr = (f'for $e in descendant-or-self::* return {fn}(serialize($e))' if case['per_item'] == 'for'
+                else f'descendant-or-self::* ! {fn}(serialize(.))')
+        res, d = _call(prefix + '/per-item-' + fn, lambda code: 'n>=2' if n >= 2 else 'n=1',
+                       lambda: _ev(expr, root=top if shared is None else shared, item=elems[0]))
+        if d:
+            d.detail = f'{expr} over {n} elements'
+            discs.append(d)
+        else:
+            res = res if isinstance(res, list) else [res]
+            if len(res) != n:
+                discs.append(Disc(f'{prefix}/per-item-{fn}/count', n, len(res), expr))
+            else:
+                for i, back in enumerate(res):
+                    df = _xdiff(_de_view(('d', [_spec_model(_find_spec(case['root'], i, [0]))])), _de_view(_node_model(back)))
+                    if df:
+                        discs.append(Disc(f'{prefix}/per-item-{fn}/roundtrip/{df[0]}', df[1], df[2], f'{expr}: element #{i} at {df[3]}'))
+                        break
+        if _source_dump(top) != before:
+            discs.append(Disc(f'{prefix}/source-tree-mutated/per-item', 'unchanged', 'changed', expr))
     if rec is not None:
+        if case.get('per_item'):
+            rec.cls('xh:per-item-expression')
+            if n >= 2:
+                rec.cls('xh:per-item-expression-n>=2')
         classes = ['xh:case', 'xh:' + case['backend']] + (['xh:inner-tail-then-ancestor'] if inner_then_ancestor else []) + \
                   (['xh:inner-tail-step'] if seen_inner_tail else []) + (['xh:shared-node-tree'] if shared is not None else [])
         rec.case(['xh', case], nontrivial=seen_inner_tail, sample={'check': 'xml_history', 'backend': case['backend'],
